@@ -174,6 +174,8 @@ Proof.
   - (* get2 *) repeat split; auto.
   - (* get2 *) repeat split; auto.
   - (* advance *) repeat split; auto.
+  - (* parent cancel, again *) repeat split; auto.
+  - (* parent cancel *) rewrite !map_length. repeat split; auto.
 Qed.
 
 Lemma an_cnt_reach cfg s : an_reach cfg s -> an_cnt cfg s.
@@ -386,6 +388,8 @@ Proof.
   - (* advance *)
     an_bools. split; [|split; [|split; [|split]]]; cbn [an_tk an_next an_now an_tchan an_sendq]; auto.
     intros j Hd f Hf. specialize (Hrelnow j Hd f Hf). lia.
+  - (* parent cancel, again *) exact (conj IH (conj Hnext (conj Hrelnow (conj Hq Hnd)))).
+  - (* parent cancel *) exact (conj IH (conj Hnext (conj Hrelnow (conj Hq Hnd)))).
 Qed.
 
 Lemma an_tinv_reach cfg s : an_pub cfg = AnAttemptChannel -> an_reach cfg s -> an_tinv_all s.
@@ -421,13 +425,17 @@ Proof.
   - destruct H as (H1 & H2 & H3 & H4). specialize (Hw _ _ eq_refl). repeat split; auto; lia.
 Qed.
 
+Lemma an_dl_le s d : an_dl s d <= d.
+Proof. unfold an_dl. destruct (an_pc s); lia. Qed.
+
 Lemma an_quiet_wait cfg s dt k a c :
   an_quiet cfg s dt = true -> In k (an_active s) -> at_phase (an_tk s k) = AnWait a c ->
   an_now s + dt <= c + ao_T (at_opts (an_tk s k)).
 Proof.
   unfold an_quiet. intros H Hin Hph. apply andb_prop in H. destruct H as [_ H].
   rewrite forallb_forall in H. specialize (H k Hin). unfold an_task_quiet in H. rewrite Hph in H.
-  apply andb_prop in H. destruct H as [H _]. apply Z.leb_le in H. exact H.
+  apply andb_prop in H. destruct H as [H _]. apply Z.leb_le in H.
+  pose proof (an_dl_le s (c + ao_T (at_opts (an_tk s k)))). lia.
 Qed.
 
 Lemma an_acc_decide s k a c f :
@@ -510,6 +518,8 @@ Proof.
     cbn [an_now]. intros a c Hph. destruct (IH j) as [_ Hj]. rewrite Hph in Hj. destruct Hj as (Hin & _).
     destruct (dt =? 0) eqn:Ed; [apply Z.eqb_eq in Ed; lia|]. cbn [orb] in *.
     pose proof (an_quiet_wait cfg s dt j a c H0 Hin Hph). lia.
+  - (* parent cancel, again *) exact IH.
+  - (* parent cancel *) intros j. apply (Hsame 0%nat); auto.
 Qed.
 
 Lemma an_acc_reach cfg s :
@@ -661,6 +671,11 @@ Proof.
   - (* get2 *) eapply (Hfr k); reflexivity.
   - eapply (Hfr k); reflexivity.
   - (* advance *) apply (an_binv_frame s); [reflexivity|intros; split; reflexivity|exact (conj B1 (conj B2 (conj B3 B4)))].
+  - (* parent cancel, again *) exact (conj B1 (conj B2 (conj B3 B4))).
+  - (* parent cancel: the keys of the queued callbacks are unchanged *)
+    unfold an_binv, an_keys in *. cbn [an_ichan an_tk]. rewrite map_map.
+    rewrite (map_ext _ an_cb_key) by (intros [[? ?] ?]; reflexivity).
+    exact (conj B1 (conj B2 (conj B3 B4))).
 Qed.
 
 Lemma an_binv_reach cfg s : an_pub cfg = AnAttemptChannel -> an_reach cfg s -> an_binv s.
@@ -808,6 +823,18 @@ Proof.
   - (* get2 *) eapply (Hfr k); try reflexivity; auto. apply incl_refl.
   - eapply (Hfr k); try reflexivity; auto. apply incl_refl.
   - (* advance *) apply (an_cinv_frame s); auto. intros k. repeat split; auto. apply incl_refl.
+  - (* parent cancel, again *) exact IH.
+  - (* parent cancel: publishing slots are untouched *)
+    split; [|split; [|split]]; cbn [an_tk an_workers an_next].
+    + exact C1.
+    + exact C2.
+    + intros k a saw p Hin. apply in_map_iff in Hin. destruct Hin as (sl & E & Hin).
+      destruct sl as [k' a' d r p'|k' a' saw' p']; cbn [an_cancel_slot] in E.
+      * destruct (ab_honours (an_beh_of (at_opts (an_tk s k')) a') && (an_now s <? r))%bool; discriminate E.
+      * inversion E; subst. eapply C3, Hin.
+    + intros sl Hin. apply in_map_iff in Hin. destruct Hin as (sl0 & E & Hin). specialize (C4 _ Hin). subst sl.
+      destruct sl0 as [k' a' d r p'|k' a' saw' p']; cbn [an_cancel_slot];
+        [destruct (ab_honours (an_beh_of (at_opts (an_tk s k')) a') && (an_now s <? r))%bool|]; exact C4.
 Qed.
 
 Lemma an_cinv_reach cfg s : an_pub cfg = AnAttemptChannel -> an_reach cfg s -> an_cinv s.
